@@ -289,7 +289,10 @@ int main(void) {
                 int64_t cnt = strtoll(toks[t + 1], NULL, 10);
                 for (uint32_t i = 0; i < depth; i++) {
                     uint64_t pos = (fnv1a64(key, kl, i) % width) + (uint64_t)i * width;
-                    cells[pos] = (int32_t)((int64_t)cells[pos] + cnt);
+                    int64_t v = (int64_t)cells[pos] + cnt; /* documented rule: counters saturate at the int32 limits */
+                    if (v > INT32_MAX) v = INT32_MAX;
+                    if (v < INT32_MIN) v = INT32_MIN;
+                    cells[pos] = (int32_t)v;
                 }
                 added += cnt;
                 free(key);
